@@ -30,29 +30,29 @@ type wi struct{ it rq.Iterator }
 // DefaultQueue mirrors queue.DefaultQueue.
 func DefaultQueue() Queue { return &wq{q: rq.DefaultQueue()} }
 
-func (w *wq) Offer(v interface{}) { vsched.Step(); vsched.Atomic(func() { w.q.Offer(v) }) }
+func (w *wq) Offer(v interface{}) { vsched.StepK(101); vsched.Atomic(func() { w.q.Offer(v) }) }
 func (w *wq) Poll() (r interface{}) {
-	vsched.Step()
+	vsched.StepK(102)
 	vsched.Atomic(func() { r = w.q.Poll() })
 	return
 }
 func (w *wq) Peek() (r interface{}) {
-	vsched.Step()
+	vsched.StepK(103)
 	vsched.Atomic(func() { r = w.q.Peek() })
 	return
 }
 func (w *wq) Size() (r int32) {
-	vsched.Step()
+	vsched.StepK(104)
 	vsched.Atomic(func() { r = w.q.Size() })
 	return
 }
 func (w *wq) IsEmpty() (r bool) {
-	vsched.Step()
+	vsched.StepK(105)
 	vsched.Atomic(func() { r = w.q.IsEmpty() })
 	return
 }
 func (w *wq) Iterator() Iterator {
-	vsched.Step()
+	vsched.StepK(106)
 	var it rq.Iterator
 	vsched.Atomic(func() { it = w.q.Iterator() })
 	if it == nil {
@@ -61,13 +61,13 @@ func (w *wq) Iterator() Iterator {
 	return &wi{it: it}
 }
 func (w *wi) HasNext() (r bool) {
-	vsched.Step()
+	vsched.StepK(107)
 	vsched.Atomic(func() { r = w.it.HasNext() })
 	return
 }
 func (w *wi) Next() (r interface{}) {
-	vsched.Step()
+	vsched.StepK(108)
 	vsched.Atomic(func() { r = w.it.Next() })
 	return
 }
-func (w *wi) Remove() { vsched.Step(); vsched.Atomic(func() { w.it.Remove() }) }
+func (w *wi) Remove() { vsched.StepK(109); vsched.Atomic(func() { w.it.Remove() }) }
